@@ -203,6 +203,21 @@ def fn_old_format(spec, rec):
     rec.label("%s-v%d" % (tname, version))
 
 
+def link_kind_cases(tier):
+    """every (type, version) pair x every link kind of the session generator, on one fixed two-dataset session"""
+    style = {"alpha": 0.5, "color": "#ff0000", "linewidth": 1, "marker": "o", "markersize": 3}
+
+    def ds(label, vals_a, vals_b):
+        return {"comps": [{"kind": "float", "name": "a", "vals": vals_a}, {"kind": "float", "name": "b", "vals": vals_b}], "coords": None, "derived": [],
+                "label": label, "meta": {}, "shape": [len(vals_a)], "style": style, "units": [None, None]}
+    datasets = [ds("x", [0.0, 1.0, 2.5], [3.0, -1.0, 0.5]), ds("y", [1.0, 4.0], [2.0, 0.25])]
+    group = {"label": "sel", "state": {"t": "ineq", "att": ["c", 0], "op": "gt", "val": 0.5}, "style": style}
+    for pair in range(len(versioned_types())):
+        for kind in ("func", "twoway", "identity", "linksame", "linktwoway", "helper2", "multilink", "mixed"):
+            link = {"kind": kind, "a": [0, 0], "b": [1, 0], "a2": [0, 1], "b2": [1, 1], "fn": sorted(session.FUNCS)[0], "helper": session.HELPERS2[0]}
+            yield {"pair": pair, "session": {"datasets": datasets, "links": [link], "joins": [], "groups": [group]}}
+
+
 # --------------------------------------------------------------------------- (3) rename table
 
 def rename_cases(tier):
@@ -316,5 +331,6 @@ def checks(tier):
         Check("registry_laws", fn_registry, enum=registry_cases, reset=False),
         Check("versioned_dict", fn_versioned_dict, strategy=vd_cases, examples=n[0], reset=False),
         Check("old_formats", fn_old_format, strategy=old_cases, examples=n[1]),
+        Check("old_formats_link_kinds", fn_old_format, enum=link_kind_cases),
         Check("rename_table", fn_rename, enum=rename_cases, reset=False),
     ]
